@@ -329,7 +329,13 @@ string JSON::serialize(uint32_t options, size_t indent_level) const {
     case 3: { // double
       string ret = string_printf("%g", this->as_float());
       if (ret.find('.') == string::npos) {
-        return ret + ".0";
+        // The fraction has to go before the exponent, if there is one
+        // (1e+20 -> 1.0e+20); "1e+20.0" is not a number
+        size_t exp_offset = ret.find('e');
+        if (exp_offset == string::npos) {
+          return ret + ".0";
+        }
+        ret.insert(exp_offset, ".0");
       }
       return ret;
     }
